@@ -486,7 +486,7 @@ def km2(P, C):
             if oke:
                 g = [a for a in f.ancestors(edec[0]) if f.k(a) == "IfStmt"]
                 ct = f.alpha(f.nodes[g[0]]["cond"])[0].replace(" ", "") if g else ""
-                oke = ct == "((v0>1)&&(v1[(v0-1)]==39))" or ct == "((v0>1)&&(v1[(v0-1)]=='\\''))" or ("[(v0-1)]==" in ct and "v0>1" in ct)
+                oke = ct == "((1<v0)&&(v1[(v0-1)]==39))" or ("[(v0-1)]==" in ct and "1<v0" in ct)
             # collapse: inside the loop, k++ under value[k]==quote && k+1<end && value[k+1]==quote
             skips = [y for y in f.walk(f.nodes[Lp]["body"]) if f.k(y) == "UnaryOperator" and f.nodes[y]["op"] == "++" and vid(f.nodes[y]["ch"][0]) == kid]
             if len(skips) == 1:
